@@ -1003,7 +1003,10 @@ func genDecTables(repo string) (string, map[string]interface{}, error) {
 	cfast, creg := g.converters()
 	b.WriteString("(* converter.go: fastConverterMap {source kind, destination kind} -> the parser applied to the referenced string *)\nDefinition gen_conv_fast : list (bstr * action) :=\n  [" + strings.Join(cfast, ";\n   ") + "].\n\n")
 	b.WriteString("Definition gen_conv_registered : list (bstr * bstr) :=\n  [" + strings.Join(creg, "; ") + "].\n")
-	stats := map[string]interface{}{"routines": len(switchRoutines), "unknown": g.unk, "fast": len(fast), "fast_ptr": len(fastPtr),
+	out := b.String()
+	unknown := strings.Count(out, "AUnknown ") + strings.Count(out, "WUnknownWrapper ") + strings.Count(out, "RdUnknown ") +
+		strings.Count(out, "PsUnknown ") + strings.Count(out, "\"?")
+	stats := map[string]interface{}{"routines": len(switchRoutines), "unknown": unknown, "fast": len(fast), "fast_ptr": len(fastPtr),
 		"kinds": len(handler), "wrappers": len(wrapperRoutines), "tags": len(g.tags)}
-	return b.String(), stats, nil
+	return out, stats, nil
 }
